@@ -63,6 +63,10 @@ type CallSc struct {
 	// Via: the public entry point used for a request/batch: "" Client.Request / Client.Batch | "roundtrip"
 	// Client.Roundtrip with a hand-built message | "exec" the fluent builder (single requests)
 	Via string `json:"via,omitempty"`
+	// Bytes: the call is an Encrypt instead of an Activate: its response carries byte strings (the data, and the item
+	// ids of a batch), which must be the ones the server sent for this call, when the call returns and for as long
+	// as the caller keeps them (a response that changes under its holder is no longer the server's response)
+	Bytes bool `json:"bytes,omitempty"`
 }
 
 // genVia draws the entry point of a call.
@@ -116,6 +120,38 @@ type callRec struct {
 	startSeq, endSeq  int
 	suffix            bool
 	ctxKind           string // the call carries its own cancellation / deadline
+	held              []heldBytes
+}
+
+// heldBytes is a byte string of a returned response, kept by reference, with a copy of what it must (still) hold.
+type heldBytes struct {
+	what string
+	ref  []byte
+	want []byte
+}
+
+// respData is the data the scripted server returns for an Encrypt of the given identifier.
+func respData(id string) []byte {
+	return []byte("cipher-of-" + id + "-" + strings.Repeat(id[len(id)-1:], 24))
+}
+
+// gotOf names what a response payload says (the token it carries) and keeps its byte strings for the final look.
+func (rec *callRec) gotOf(pl kmip.OperationPayload, status kmip.ResultStatus) string {
+	switch p := pl.(type) {
+	case *payloads.ActivateResponsePayload:
+		if status == kmip.ResultStatusSuccess {
+			return p.UniqueIdentifier
+		}
+	case *payloads.EncryptResponsePayload:
+		if status == kmip.ResultStatusSuccess {
+			if want := respData(p.UniqueIdentifier); !bytes.Equal(p.Data, want) {
+				return fmt.Sprintf("%s<with data %q>", p.UniqueIdentifier, p.Data)
+			}
+			rec.held = append(rec.held, heldBytes{"data of " + p.UniqueIdentifier, p.Data, respData(p.UniqueIdentifier)})
+			return p.UniqueIdentifier
+		}
+	}
+	return fmt.Sprintf("<%T status=%v>", pl, status)
 }
 
 type clientWorld struct {
@@ -199,7 +235,7 @@ func (w *clientWorld) dialer(ctx context.Context) (net.Conn, error) {
 	w.conns = append(w.conns, a)
 	w.peers = append(w.peers, b)
 	w.s.Spawn("peer", func() { w.peerLoop(b, i) })
-	return a, nil
+	return &simrt.TCPConn{Conn: a}, nil
 }
 
 func (w *clientWorld) countTransmission(p []byte) {
@@ -324,6 +360,8 @@ func echoResponse(req *kmip.RequestMessage) *kmip.ResponseMessage {
 		switch pl := bi.RequestPayload.(type) {
 		case *payloads.ActivateRequestPayload:
 			ri.ResponsePayload = &payloads.ActivateResponsePayload{UniqueIdentifier: pl.UniqueIdentifier}
+		case *payloads.EncryptRequestPayload:
+			ri.ResponsePayload = &payloads.EncryptResponsePayload{UniqueIdentifier: pl.UniqueIdentifier, Data: respData(pl.UniqueIdentifier)}
 		case *payloads.DiscoverVersionsRequestPayload:
 			ri.ResponsePayload = &payloads.DiscoverVersionsResponsePayload{ProtocolVersion: pl.ProtocolVersion}
 		default:
@@ -452,6 +490,10 @@ func (w *clientWorld) doCall(caller, idx int, cs CallSc, suffix bool) *callRec {
 	}
 	var pls []kmip.OperationPayload
 	for _, tok := range rec.tokens {
+		if cs.Bytes {
+			pls = append(pls, &payloads.EncryptRequestPayload{UniqueIdentifier: tok, Data: []byte("plain-" + tok)})
+			continue
+		}
 		pls = append(pls, &payloads.ActivateRequestPayload{UniqueIdentifier: tok})
 	}
 	w.s.Eventf("call c%d/%d start", caller, idx)
@@ -462,13 +504,20 @@ func (w *clientWorld) doCall(caller, idx int, cs CallSc, suffix bool) *callRec {
 		if err == nil && resp == nil {
 			rec.got = append(rec.got, "<nil response>")
 		} else if err == nil {
-			for _, bi := range resp.BatchItem {
-				if p, ok := bi.ResponsePayload.(*payloads.ActivateResponsePayload); ok && bi.ResultStatus == kmip.ResultStatusSuccess {
-					rec.got = append(rec.got, p.UniqueIdentifier)
-				} else {
-					rec.got = append(rec.got, fmt.Sprintf("<%T status=%v>", bi.ResponsePayload, bi.ResultStatus))
+			for k, bi := range resp.BatchItem {
+				rec.got = append(rec.got, rec.gotOf(bi.ResponsePayload, bi.ResultStatus))
+				if k < len(msg.BatchItem) && len(bi.UniqueBatchItemID) > 0 && bytes.Equal(bi.UniqueBatchItemID, msg.BatchItem[k].UniqueBatchItemID) {
+					rec.held = append(rec.held, heldBytes{fmt.Sprintf("id of item %d", k), bi.UniqueBatchItemID, bytes.Clone(bi.UniqueBatchItemID)})
 				}
 			}
+		}
+	} else if cs.Via == "exec" && cs.Kind != "batch" && cs.Bytes {
+		res, err := w.client.Encrypt(rec.tokens[0]).Data([]byte("plain-" + rec.tokens[0])).ExecContext(ctx)
+		rec.err = err
+		if err == nil && res != nil {
+			rec.got = append(rec.got, rec.gotOf(res, kmip.ResultStatusSuccess))
+		} else if err == nil {
+			rec.got = append(rec.got, "<nil payload>")
 		}
 	} else if cs.Via == "exec" && cs.Kind != "batch" {
 		res, err := w.client.Activate(rec.tokens[0]).ExecContext(ctx)
@@ -482,11 +531,10 @@ func (w *clientWorld) doCall(caller, idx int, cs CallSc, suffix bool) *callRec {
 		res, err := w.client.Batch(ctx, pls...)
 		rec.err = err
 		if err == nil {
-			for _, bi := range res {
-				if p, ok := bi.ResponsePayload.(*payloads.ActivateResponsePayload); ok && bi.ResultStatus == kmip.ResultStatusSuccess {
-					rec.got = append(rec.got, p.UniqueIdentifier)
-				} else {
-					rec.got = append(rec.got, fmt.Sprintf("<%T status=%v>", bi.ResponsePayload, bi.ResultStatus))
+			for k, bi := range res {
+				rec.got = append(rec.got, rec.gotOf(bi.ResponsePayload, bi.ResultStatus))
+				if len(bi.UniqueBatchItemID) > 0 {
+					rec.held = append(rec.held, heldBytes{fmt.Sprintf("id of item %d", k), bi.UniqueBatchItemID, bytes.Clone(bi.UniqueBatchItemID)})
 				}
 			}
 		}
@@ -494,11 +542,7 @@ func (w *clientWorld) doCall(caller, idx int, cs CallSc, suffix bool) *callRec {
 		res, err := w.client.Request(ctx, pls[0])
 		rec.err = err
 		if err == nil {
-			if p, ok := res.(*payloads.ActivateResponsePayload); ok {
-				rec.got = append(rec.got, p.UniqueIdentifier)
-			} else {
-				rec.got = append(rec.got, fmt.Sprintf("<%T>", res))
-			}
+			rec.got = append(rec.got, rec.gotOf(res, kmip.ResultStatusSuccess))
 		}
 	}
 	if observed != nil && observed.fired.Load() {
@@ -676,6 +720,12 @@ func (w *clientWorld) tokenOracle(prop string) {
 	for _, rec := range w.calls {
 		if !rec.returned || rec.err != nil {
 			continue
+		}
+		for _, h := range rec.held {
+			if !bytes.Equal(h.ref, h.want) {
+				w.x.Reportf(prop+".foreign-response", "response-changed-after-return", "call c%d/%d: the %s in the response it was given held %q when the call returned and holds %q at the end of the run", rec.caller, rec.idx, h.what, h.want, h.ref)
+				break
+			}
 		}
 		if len(rec.got) != len(rec.tokens) {
 			w.x.Reportf(prop+".wrong-item-count", "count", "call c%d/%d sent %d items, got %d back without error", rec.caller, rec.idx, len(rec.tokens), len(rec.got))
